@@ -114,6 +114,11 @@ func runC13(p *an.Prog, r *an.Run, tier string) {
 	checkSingleStoreWiring(p, r)
 	checkKeySpacesKnown(p, r)
 	checkKeyOperandTypes(p, r)
+	// accepted nonces are among what must be read back: the persisted record's lifetime (C05.fresh) and the rest of the
+	// nonce-store rules
+	checkNonceStores(p, r)
+	// an acknowledged keep-alive stores the whole reported peer set (the tracked-peer rules of C11 for the drivers)
+	runC11(p, r, tier)
 
 	// ---- propagate
 	fns := badgerPkgFuncs(p)
